@@ -119,8 +119,18 @@ def check(rep, tier, seed):
     cases = _cases(rng, tier)
     import multiprocessing as mp
 
-    with mp.get_context("fork").Pool(6) as pool:
-        outs = pool.map(_one, cases, chunksize=4)
+    pool = mp.get_context("fork").Pool(6)
+    try:
+        # normally a few seconds; a change that makes the encoder loop forever (the qindex search has no upper bound) must not hang the check
+        outs = pool.map_async(_one, cases, chunksize=4).get(timeout=300 if tier == "quick" else 1500)
+    except mp.TimeoutError:
+        pool.terminate()
+        rep.extra_assumptions.append("NOT bounded-checked on this tree: make_picture_data_units did not return within the time limit on the seeded configurations "
+                                     "(abandoned: undecided, not a verdict)")
+        rep.add_bounded("make_picture_data_units on small configurations", "abandoned after the time limit: no result", 0, False)
+        return
+    finally:
+        pool.terminate()
     ran = sum(1 for o in outs if o[0] != "skip")
     frag = sum(1 for c, o in zip(cases, outs) if o[0] != "skip" and c["frag"])
     over = sum(1 for c, o in zip(cases, outs) if o[0] != "skip" and (c["minq"] or c["mins"] > 1))
